@@ -201,6 +201,7 @@ class ObjectCollisions(Bounded):
         ['dir.d/foo.c', 'dir/foo.c', 'dir.d/foo.bar.c'], ['a b.c', 'a.b.c', 'a/b.c'], ['../src2/foo.c', 'foo.c', 'sub/../bar.c'],
         ['./~/a.c', 'a.c'],       # a directory literally named `~`
         ['parse/scan.l', 'config/scan.l', 'scan.l'],      # sources that are first turned into C by a generator (lex)
+        ['/opt/elsewhere/x.c', 'x.c', '/opt/x.c'],        # sources outside both trees, given by absolute path
     ]
     # generated_sources(): (inputs, language)
     GENERATED = [(['x/scan.l', 'y/scan.l', 'scan.l'], None), (['gui/widget.hpp', 'net/widget.hpp', 'widget.hpp'], 'qtmoc'),
@@ -253,7 +254,7 @@ class ObjectCollisions(Bounded):
         import posixpath
         for s_ in srcs:
             files[posixpath.normpath(posixpath.join(d, s_))] = 'int f(void) { return 0; }\n'
-        files = {k: v for k, v in files.items() if not k.startswith('..')}
+        files = {k: v for k, v in files.items() if not k.startswith('..') and not k.startswith('/')}
         if any(posixpath.normpath(posixpath.join(d, s_)).startswith('..') for s_ in srcs):
             return None            # a source outside the source tree: not this claim
         trace = run_configure(files, [])
